@@ -440,7 +440,9 @@ impl FaceModify {
             face.bg = Some(bg);
         }
         if let Some(underline) = self.underline {
-            face.attrs |= underline.into();
+            // replace underline style (including `None` which removes it)
+            let (_, flags) = face.attrs.unpack();
+            face.attrs = FaceAttrs::pack(underline, flags);
         }
         // TODO: underline_color
         for (update, flag) in [
